@@ -10,6 +10,8 @@ include!("variance.rs");
 include!("skewness.rs");
 #[cfg(any(feature = "std", feature = "libm"))]
 include!("kurtosis.rs");
+#[cfg(feature = "verif-hooks")]
+include!("verif_hooks.rs");
 
 /// Alias for `Variance`.
 pub type MeanWithError = Variance;
@@ -77,6 +79,18 @@ macro_rules! define_moments_common {
             #[inline]
             pub fn len(&self) -> u64 {
                 self.n
+            }
+
+            #[cfg(feature = "verif-hooks")]
+            #[doc(hidden)]
+            pub fn __verif_from_parts(n: u64, avg: f64, m: [f64; MAX_MOMENT - 1]) -> $name {
+                $name { n, avg, m }
+            }
+
+            #[cfg(feature = "verif-hooks")]
+            #[doc(hidden)]
+            pub fn __verif_parts(&self) -> (u64, f64, [f64; MAX_MOMENT - 1]) {
+                (self.n, self.avg, self.m)
             }
 
             /// Estimate the mean of the population.
